@@ -115,6 +115,30 @@ Definition after_vendor (s : bytes) : bytes :=
   | None => s
   end.
 
+(* reMethodSymbol ^\(\*?([^)]+)\)(\..+)$ : returns groups 1 and 2 *)
+Definition match_method_symbol (s : bytes) : option (bytes * bytes) :=
+  match s with
+  | 40%N :: t =>
+      let t1 := match t with 42%N :: t' => t' | _ => t end in
+      (* \*? is greedy but [^)]+ may also start with '*': try with the star consumed first *)
+      let try (body : bytes) : option (bytes * bytes) :=
+        let '(g1, r) := span (fun c => negb (N.eqb c 41)) body in
+        match g1, r with
+        | _ :: _, 41%N :: 46%N :: ((_ :: _) as r2) =>
+            (* .+ does not match a line feed and must reach the end of the text *)
+            if forallb (fun c => negb (N.eqb c 10)) r2 then Some (g1, 46%N :: r2) else None
+        | _, _ => None
+        end in
+      match try t1 with
+      | Some x => Some x
+      | None => match t with
+                | 42%N :: _ => try t
+                | _ => None
+                end
+      end
+  | _ => None
+  end.
+
 Section WithVersion.
   Variable ver : bytes.   (* runtime.Version() *)
 
@@ -185,32 +209,10 @@ Section WithVersion.
 
   Definition src_url (c : Call) : bytes := fst (get_src_branch_url c).
 
-  (* reMethodSymbol ^\(\*?([^)]+)\)(\..+)$ ; symbol() *)
+  (* symbol(): s = reMethodSymbol.ReplaceAllString(s, "$1$2") when the name matches *)
   Definition symbol (f : Func) : bytes :=
     let s := FName f in
-    let s' :=
-      match s with
-      | 40%N :: t =>
-          let t1 := match t with 42%N :: t' => t' | _ => t end in
-          (* \*? is greedy but [^)]+ may also start with '*': try with the star consumed first *)
-          let try (body : bytes) : option bytes :=
-            let '(g1, r) := span (fun c => negb (N.eqb c 41)) body in
-            match g1, r with
-            | _ :: _, 41%N :: 46%N :: ((_ :: _) as r2) =>
-                (* .+ does not match a line feed and must reach the end of the text *)
-                if forallb (fun c => negb (N.eqb c 10)) r2 then Some (g1 ++ 46%N :: r2) else None
-            | _, _ => None
-            end in
-          match try t1 with
-          | Some x => x
-          | None => match t with
-                    | 42%N :: _ => match try t with Some x => x | None => s end
-                    | _ => s
-                    end
-          end
-      | _ => s
-      end in
-    query_escape s'.
+    query_escape (match match_method_symbol s with Some (g1, g2) => g1 ++ g2 | None => s end).
 
   (* pkgURL *)
   Definition pkg_url (c : Call) : bytes :=
